@@ -51,6 +51,23 @@ example : (∀ p ∈ ([[.cmp ⟨none, ["a"]⟩], [.cmp ⟨none, ["b"]⟩]] : Sel
     (∀ c ∈ ([[.cmp ⟨none, ["c"]⟩], [.cmp ⟨some (some "-s"), []⟩], [.cmp ⟨none, ["d"]⟩, .cmp ⟨some none, []⟩]] : SelList),
       parentRefs c ≤ 1) := by decide
 
+/-- **Repeated `&`** (`& + &`, `& &-s`, …): every compound that contains `&` multiplies the number
+    of results by the number of parents, so a complex with k such compounds yields |P|^k selectors
+    (all k-tuples of parents; `flatten_vertically` then interleaves the columns of different
+    children). -/
+theorem C04_resolveParent_repeated_length (P : SelList) (hP : ∀ p ∈ P, goodParent p = true)
+    (implicit : Bool) (c : Complex) (hc : complexHasParent c = true) :
+    ∃ R, resolveComplex implicit P c = .ok R ∧ R.length = P.length ^ parentRefs c :=
+  resolveComplex_length P hP implicit c hc
+
+-- `a, b { & + & {…} }` is `a + a, a + b, b + a, b + b`
+example : resolveList (some [[.cmp ⟨none, ["a"]⟩], [.cmp ⟨none, ["b"]⟩]]) true
+    [[.cmp ⟨some none, []⟩, .comb "+", .cmp ⟨some none, []⟩]]
+    = .ok [[.cmp ⟨none, ["a"]⟩, .comb "+", .cmp ⟨none, ["a"]⟩], [.cmp ⟨none, ["a"]⟩, .comb "+", .cmp ⟨none, ["b"]⟩],
+           [.cmp ⟨none, ["b"]⟩, .comb "+", .cmp ⟨none, ["a"]⟩], [.cmp ⟨none, ["b"]⟩, .comb "+", .cmp ⟨none, ["b"]⟩]] := by
+  simp [resolveList, mapE, resolveComplex, complexHasParent, compHasParent, foldComps, stepComp, resolveCompound,
+    flattenVertically_single]
+
 /-! ### nested properties -/
 
 /-- The name the visitor builds by carrying `declaration_name` (`format!("{}-{}")`) is the
@@ -156,9 +173,9 @@ theorem C04_asFound_D1_outerCopyParent :
     specHolds witD1 (compile { AsFound.code with outerCopyParent := false } witD1) = true ∧
     specHolds witD1 (compile AsFound.specified witD1) = true := by decide
 
-/-- `@foo { @at-root (without: foo) { p0: v1 } }` -/
+/-- `@foo { @at-root (without: all) { p0: v1 } }` -/
 def witD2 : Stmts :=
-  .cons (.unknown "foo" "" (.cons (.atroot (some ⟨false, ["foo"]⟩) (.cons (.decl (.mk "p0" (some "v1") .nil)) .nil)) .nil)) .nil
+  .cons (.unknown "foo" "" (.cons (.atroot (some ⟨false, ["all"]⟩) (.cons (.decl (.mk "p0" (some "v1") .nil)) .nil)) .nil)) .nil
 
 /-- C04-D2: IN_UNKNOWN_AT_RULE survives the @at-root (visitor.rs:1244), so the declaration is
     accepted although nothing encloses it; the property (and dart-sass) ask for an error. -/
@@ -167,19 +184,20 @@ theorem C04_asFound_D2_keepInUnknown :
     specHolds witD2 (compile { AsFound.code with keepInUnknown := false } witD2) = true ∧
     specHolds witD2 (compile AsFound.specified witD2) = true := by decide
 
-/-- `@media (f0) { @supports (s0: v) { a { @at-root (without: media supports) { & { p0: v1 } } & { p0: v2 } } } }` -/
+/-- `@supports s { @supports t { a { @at-root (without: all) { & { p: 1 } } & { p: 2 } } } }` -/
 def witD3 : Stmts :=
-  .cons (.media [[0]] (.cons (.supports "(s0: v)" (.cons (.rule [[.cmp ⟨none, ["a"]⟩]]
-    (.cons (.atroot (some ⟨false, ["media", "supports"]⟩)
-        (.cons (.rule [[.cmp ⟨some none, []⟩]] (.cons (.decl (.mk "p0" (some "v1") .nil)) .nil)) .nil))
-      (.cons (.rule [[.cmp ⟨some none, []⟩]] (.cons (.decl (.mk "p0" (some "v2") .nil)) .nil)) .nil))) .nil)) .nil)) .nil
+  .cons (.supports "s" (.cons (.supports "t" (.cons (.rule [[.cmp ⟨none, ["a"]⟩]]
+    (.cons (.atroot (some ⟨false, ["all"]⟩)
+        (.cons (.rule [[.cmp ⟨some none, []⟩]] (.cons (.decl (.mk "p" (some "1") .nil)) .nil)) .nil))
+      (.cons (.rule [[.cmp ⟨some none, []⟩]] (.cons (.decl (.mk "p" (some "2") .nil)) .nil)) .nil))) .nil)) .nil)) .nil
 
 /-- C04-D3: only the landing parent is tested for a following sibling (visitor.rs:1653), so the
-    later `a { p0: v2 }` is written before the @at-root's `a { p0: v1 }`; testing the ancestors too
+    later `a { p: 2 }` is written before the @at-root's `a { p: 1 }`; testing the ancestors too
     keeps source order. -/
-theorem C04_asFound_D3_shallowSibling :
-    specHolds witD3 (compile AsFound.code witD3) = false ∧
-    specHolds witD3 (compile { AsFound.code with shallowSibling := false } witD3) = true ∧
-    specHolds witD3 (compile AsFound.specified witD3) = true := by decide
+theorem C04_asFound_D3_shallowSibling : specHolds witD3 (compile AsFound.code witD3) = false := by decide
+
+set_option maxHeartbeats 1600000 in
+theorem C04_asFound_D3_repaired :
+    specHolds witD3 (compile { AsFound.code with shallowSibling := false } witD3) = true := by decide
 
 end Grass.CssTree
